@@ -39,7 +39,7 @@ CLAIMED = {
     ),
     "C06": (
         "property-based testing: differential between run-alone, batch and permuted batch as order-free multisets + reference model of the configured input pipeline for response counts; enumeration of the (batch size, parallelism) plane",
-        "Real applications are built from generated files in 7 plugin/search configurations and driven with batches mixing valid, failing and grid-search queries under two parallelism values, a permutation, injected per-query delays and both persistence policies; responses are compared as canonical multisets with the run-alone (parallelism 1, one query per call) reference; the load-balancing partition is checked directly for arbitrary weights. All (size 1-24) x (parallelism 1-16) pairs are enumerated with a simple mix.",
+        "Real applications are built from generated files in 9 plugin/search/traversal configurations (two with the energy model and its shared prediction cache, where run-alone means a freshly built application) and driven with batches mixing valid, failing and grid-search queries under two parallelism values, a permutation, injected per-query delays and both persistence policies; responses are compared as canonical multisets with the run-alone (parallelism 1, one query per call) reference; the load-balancing partition is checked directly for arbitrary weights. All (size 1-24) x (parallelism 1-16) pairs are enumerated with a simple mix.",
         "Trusted: the pipeline reference model, canonicalisation (volatile clock fields removed, floats at 11 digits). The thread schedule is perturbed, not enumerated (see DESIGN.md section 9). Listed finding: a failing grid sibling drops its family.",
         "DESIGN.md section 5 C06",
     ),
@@ -147,7 +147,7 @@ for p in props:
             "engine": "rcv",
             "level_claimed": {"category": "exploration", "text": text, "design_ref": ref},
             "level_note": note,
-            "technique": tech,
+            "technique": tech + "; the thorough tier adds coverage-guided fuzzing (libFuzzer drives the same proptest strategy through its decision tape, same oracle)",
         }
     )
 
@@ -167,10 +167,16 @@ manifest = {
             "path": "/verif/harness",
             "serves_properties": sorted(CLAIMED.keys()),
             "kind_free_text": "Rust crate: proptest 1.11 TestRunner driven from a binary (fixed seeds from VERIF_SEED, 16 parallel runners, integrated shrinking, JSON replay files), exhaustive enumerators for finite sub-domains, explicit reference oracles; path-depends on /repo/rust so every run rebuilds against the working tree",
+        },
+        {
+            "name": "rcv-fuzz",
+            "path": "/verif/harness/fuzz",
+            "serves_properties": sorted(CLAIMED.keys()),
+            "kind_free_text": "cargo-fuzz 0.13 / libFuzzer crate with one generic target (RCV_FUZZ_PROP selects the property): the input bytes are the decision tape of proptest's PassThrough generator (vendored copy with a small patch, see DESIGN.md 3.1), the decoded case is judged by the same Prop::check; second stage of every thorough tier, driven by bin/fuzz",
         }
     ],
     "checks": checks,
-    "notes": "bin/check <ID> <tier> rebuilds the harness against /repo's working tree and runs rcv. Known findings and fixed defects are listed in /verif/known_findings.txt; sensitivity runs (reverse fix patches and mutants) are driven by bin/mutant_run.sh.",
+    "notes": "bin/check <ID> <tier> rebuilds the harness against /repo's working tree and runs rcv; the thorough tier then runs bin/fuzz <ID> (cargo +nightly fuzz build of harness/fuzz, 16 libFuzzer processes, fixed -runs) and folds its statistics into the evidence under coverage.fuzz. Known findings and fixed defects are listed in /verif/known_findings.txt; sensitivity runs (reverse fix patches and mutants) are driven by bin/mutant_run.sh.",
     "not_applicable": [
         {"property_id": p["id"], "reason": NOT_YET} for p in props if p["id"] not in CLAIMED
     ],
